@@ -347,6 +347,21 @@ push0_set_send_buf_len(void *arg, const void *buf, size_t sz, nni_type t)
 	}
 	nni_mtx_lock(&s->m);
 	rv = nni_lmq_resize(&s->wq, (size_t) val);
+	// Senders that were blocked waiting for room take the new room first,
+	// in order, so that nothing sent later can overtake them (and they do
+	// not stay blocked while the buffer has space).
+	if (rv == NNG_OK) {
+		nni_aio *a;
+		while ((!nni_lmq_full(&s->wq)) &&
+		    ((a = nni_list_first(&s->aq)) != NULL)) {
+			nni_msg *m = nni_aio_get_msg(a);
+			size_t   l = nni_msg_len(m);
+			nni_aio_list_remove(a);
+			nni_lmq_put(&s->wq, m);
+			nni_aio_set_msg(a, NULL);
+			nni_aio_finish(a, 0, l);
+		}
+	}
 	// Changing the size of the queue can affect our readiness.
 	if (!nni_lmq_full(&s->wq)) {
 		nni_pollable_raise(&s->writable);
